@@ -203,3 +203,54 @@ for _k in (-1, 0, 1, 2, 3, 4):
              name=L3 + '::Interp1DLagrange3.interpolate[5-point axis, bracket %d]' % _k,
              canaries=([('lower extrapolation bracket not shifted onto the first stencil', ('elif i_x < 1:\n            i_x = 1', 'elif i_x < 1:\n            i_x = 2'), 'post')] if _k == -1 else
                        [('sign of the second Lagrange weight', ('-1.0 / (cx12 * cx23 * cx24)', '1.0 / (cx12 * cx23 * cx24)'), 'post', L3 + '::Interp1DLagrange3.compute_coeffs')] if _k == 2 else []))
+
+
+# ---- Interp2DSlinear, one-point path, on a 3 x 3 grid: the bilinear interpolant of the cell (tensor-product Lagrange
+# form), both partial derivatives, every pair of bracket indices incl. the extrapolation brackets -------------------
+def native_sl2(vals, np, om):
+    from pyvc.native_helpers import A
+    from openmdao.components.interp_util.interp_slinear import Interp2DSlinear
+    s = vals['self']
+    g0, g1 = A(s['grid'][0]), A(s['grid'][1])
+    t = Interp2DSlinear((g0, g1), A(s['values']), Interp2DSlinear)
+    t.coeffs = {}
+    return dict(self=t, x=A(vals['x']), idx=[int(v) for v in vals['idx']]), dict()
+
+
+def sample_sl2(kx, ky):
+    def samp(rng):
+        g0, xs = _inc_grid(rng, 3)
+        g1, ys = _inc_grid(rng, 3)
+        vals = {'__arr__': [[{'__frac__': [rng.choice([-24, -8, -3, 0, 1, 5, 16, 40]), 8]} for _ in range(3)] for _ in range(3)], 'shape': [3, 3], 'dtype': 'real'}
+        cx, cy = min(max(kx, 0), 1), min(max(ky, 0), 1)
+        x = rng.choice([xs[cx], xs[cx + 1], xs[cx] + 1, xs[0] - 7, xs[-1] + 5])
+        y = rng.choice([ys[cy], ys[cy + 1], ys[cy] + 1, ys[0] - 3, ys[-1] + 2])
+        return {'self': {'__obj__': 'Interp2DSlinear', 'id': 0, 'attrs': {'grid': {'__seq__': [g0, g1], 'tuple': True}, 'values': vals, 'coeffs': {'__dict__': []}}},
+                'x': {'__arr__': [{'__frac__': [x, 8]}, {'__frac__': [y, 8]}], 'shape': [2], 'dtype': 'real'}, 'idx': {'__seq__': [kx, ky], 'tuple': False}}
+    return samp
+
+
+for _kx in (-1, 0, 1, 2):
+    for _ky in (-1, 0, 1, 2):
+        _cx, _cy = min(max(_kx, 0), 1), min(max(_ky, 0), 1)
+        X0, X1 = 'self.grid[0][%d]' % _cx, 'self.grid[0][%d]' % (_cx + 1)
+        Y0, Y1 = 'self.grid[1][%d]' % _cy, 'self.grid[1][%d]' % (_cy + 1)
+        LX = ['((x[0] - %s) / (%s - %s))' % (X1, X0, X1), '((x[0] - %s) / (%s - %s))' % (X0, X1, X0)]
+        LY = ['((x[1] - %s) / (%s - %s))' % (Y1, Y0, Y1), '((x[1] - %s) / (%s - %s))' % (Y0, Y1, Y0)]
+        DLX = ['(1 / (%s - %s))' % (X0, X1), '(1 / (%s - %s))' % (X1, X0)]
+        DLY = ['(1 / (%s - %s))' % (Y0, Y1), '(1 / (%s - %s))' % (Y1, Y0)]
+        V = [['self.values[%d, %d]' % (_cx + i, _cy + j) for j in range(2)] for i in range(2)]
+        VAL = ' + '.join('%s * %s * %s' % (V[i][j], LX[i], LY[j]) for i in range(2) for j in range(2))
+        DX = ' + '.join('%s * %s * %s' % (V[i][j], DLX[i], LY[j]) for i in range(2) for j in range(2))
+        DY = ' + '.join('%s * %s * %s' % (V[i][j], LX[i], DLY[j]) for i in range(2) for j in range(2))
+        contract(SL + '::Interp2DSlinear.interpolate', ['C15', 'C16'],
+                 dict(self=Obj('Interp2DSlinear', grid=TupleT(Arr(3), Arr(3)), values=Arr(3, 3), coeffs=DictT({})), x=Arr(2), idx=ListT(_kx, _ky)),
+                 requires=['all(self.grid[0][k] < self.grid[0][k + 1] for k in range(2))', 'all(self.grid[1][k] < self.grid[1][k + 1] for k in range(2))'],
+                 ensures=['approx(result[0], %s)' % VAL,
+                          'len(result[1]) == 2 and approx(result[1][0], %s) and approx(result[1][1], %s)' % (DX, DY),
+                          'result[2] is None and result[3] is None',
+                          '(%d, %d) in self.coeffs' % (_kx, _ky)],
+                 modifies=['self.coeffs'], inline={'compute_coeffs'}, native=native_sl2, sampler=sample_sl2(_kx, _ky),
+                 name=SL + '::Interp2DSlinear.interpolate[3x3 grid, brackets (%d, %d)]' % (_kx, _ky),
+                 canaries=([('cross coefficient with the wrong sign', ('a[3] = c00 + c11 - c01 - c10', 'a[3] = c00 - c11 - c01 + c10'), 'post', SL + '::Interp2DSlinear.compute_coeffs')] if (_kx, _ky) == (1, 0) else
+                           [('upper y bracket not mapped onto the last cell', ('if i_y == n - 1:\n            i_y = n - 2', 'if i_y == n - 1:\n            i_y = n - 1'), 'bounds', SL + '::Interp2DSlinear.compute_coeffs')] if (_kx, _ky) == (0, 2) else []))
